@@ -12,7 +12,7 @@ Proof.
   rewrite decode_fmtp_unfold.
   assert (G : forall pieces m, NoDup (map fst m) -> NoDup (map fst (fold_left fmtp_step pieces m))).
   { induction pieces as [|p t IH]; intros m Hm; [exact Hm|]. cbn [fold_left]. apply IH.
-    unfold fmtp_step. destruct (trim_sp p); [exact Hm|]. destruct (cut 61 (n :: l)) as [k [v|]]; [|exact Hm].
+    unfold fmtp_step. destruct (trim_space p); [exact Hm|]. destruct (cut 61 (n :: l)) as [k [v|]]; [|exact Hm].
     apply map_put_keys. exact Hm. }
   apply G. constructor.
 Qed.
